@@ -399,7 +399,8 @@ func (cw *chunkWriter) writeHeader(p []byte) {
 
 	if w.req.Method == "HEAD" || code == bfe_http.StatusNotModified {
 		// do nothing
-	} else if code == bfe_http.StatusNoContent {
+	} else if !bodyAllowedForStatus(code) {
+		// 1xx and 204 responses have neither body nor Transfer-Encoding
 		delHeader("Transfer-Encoding")
 	} else if hasCL {
 		delHeader("Transfer-Encoding")
